@@ -16,6 +16,9 @@ type expect struct {
 	rejectExt   int
 	fields      int // field interceptions expected per FieldInterceptor (accepted requests)
 	rootFields  int // root-field interceptions expected per RootFieldInterceptor
+	// streamed: the transport keeps calling the response function until it answers nil (websocket,
+	// SSE): the end-of-stream call passes through the response interceptors once more
+	streamed bool
 }
 
 type traceVerdict struct {
@@ -73,6 +76,14 @@ func expectedMainline(x expect) []string {
 	for k := len(ri) - 1; k >= 0; k-- {
 		out = append(out, fmt.Sprintf("respX%d", ri[k]))
 	}
+	if x.streamed && x.rejectStage == "" {
+		for _, i := range ri {
+			out = append(out, fmt.Sprintf("respE%d", i))
+		}
+		for k := len(ri) - 1; k >= 0; k-- {
+			out = append(out, fmt.Sprintf("respX%d", ri[k]))
+		}
+	}
 	return out
 }
 
@@ -101,7 +112,8 @@ func checkTrace(x expect, ev []hev) *traceVerdict {
 				if i < minPost {
 					minPost = i
 				}
-			} else if i > maxPre {
+			} else if i > maxPre && !(x.streamed && minPost < len(ev)) {
+				// (streamed: the end-of-stream round after the first response does not move the window)
 				maxPre = i
 			}
 		}
